@@ -229,6 +229,13 @@ func (m *Model) genSel(t *rapid.T, typeName string, depth int, under bool) []*No
 		if len(out) == 0 {
 			out = append(out, &Node{Kind: "field", Name: "__typename", Key: "__typename"})
 		}
+		if rapid.IntRange(0, 3).Draw(t, "excluded") == 0 {
+			// a fragment on the union itself that its directive excludes: it contributes nothing,
+			// wherever it stands among the other selections
+			ex := &Node{Kind: "excluded", On: typeName, Args: rapid.SampledFrom([]string{"@skip(if: true)", "@include(if: false)", "@include(if: true) @skip(if: true)"}).Draw(t, "exdir")}
+			pos := rapid.IntRange(0, len(out)).Draw(t, "expos")
+			out = append(out[:pos], append([]*Node{ex}, out[pos:]...)...)
+		}
 		return out
 	case "OBJECT":
 		var fields []FieldDef
@@ -312,6 +319,8 @@ func printNodes(b *strings.Builder, ns []*Node) {
 		case "inline":
 			b.WriteString("... on " + n.On + " ")
 			printNodes(b, n.Sub)
+		case "excluded":
+			b.WriteString("... on " + n.On + " " + n.Args + " { __typename } ")
 		}
 	}
 	b.WriteString("} ")
